@@ -5,6 +5,8 @@ import random
 from harness.core import Case
 from harness import clientlib as cl
 
+WIDE = 200000        # thorough tier: histories of the wide correspondence stream (widegen.py), judged by the model and the generic rule
+WIDE_QUICK = 2000
 PROP = 'C13'
 EXHAUSTIVE = True
 RULE = ('levels 0..0x7F x {non-zero seed, all-zero seed, negative, truncated, wrong level echo, other service, silence, '
